@@ -1464,3 +1464,88 @@ B("C01-snapshot-reads-other-keyspace", "C01", "C01:R-C01.2", "src/tx/write_tx.rs
         Ok(res)""")
 E("EQ-first-via-iter", KS,
   "self.tree.first_key_value(SeqNo::MAX, None).map(Guard)", "self.tree.iter(SeqNo::MAX, None).next().map(Guard)")
+
+# ======================================================================== C15
+ENTRY = "src/journal/entry.rs"
+B("C15-keylen-width-mismatch", "C15", "C15:R-C15.1:journal::entry::Entry::encode_into:kind-Item-writer-equals-reader", ENTRY,
+  "let key_len = reader.read_u16::<LittleEndian>()?;", "let key_len = reader.read_u32::<LittleEndian>()? as u16;")
+B("C15-endianness-mismatch", "C15", "C15:R-C15.1:journal::entry::Entry::encode_into:kind-Start-writer-equals-reader", ENTRY,
+  """                let item_count = reader.read_u32::<LittleEndian>()?;
+                let seqno = reader.read_u64::<LittleEndian>()?;""",
+  """                let item_count = reader.read_u32::<LittleEndian>()?;
+                let seqno = reader.read_u64::<byteorder::BigEndian>()?;""")
+B("C15-length-fields-swapped", "C15", "C15:R-C15.1:journal::entry::Entry::encode_into:kind-Item-length-fields", ENTRY,
+  """                    CompressionType::None => {
+                        debug_assert_eq!(value_len, on_disk_value_len);
+                        Slice::from_reader(reader, on_disk_value_len as usize)?
+                    }""",
+  """                    CompressionType::None => {
+                        debug_assert_eq!(value_len, on_disk_value_len);
+                        Slice::from_reader(reader, value_len as usize)?
+                    }""")
+B("C15-clear-field-order", "C15", "C15:R-C15.1:journal::entry::Entry::encode_into:kind-Clear", ENTRY,
+  """            Clear { keyspace_id } => {
+                writer.write_u8(Tag::Clear.into())?;
+                writer.write_u64::<LittleEndian>(*keyspace_id)?;
+            }""",
+  """            Clear { keyspace_id } => {
+                writer.write_u8(Tag::Clear.into())?;
+                writer.write_u32::<LittleEndian>(*keyspace_id as u32)?;
+            }""")
+B("C15-tag-table-swapped", "C15", "C15:R-C15.2", ENTRY,
+  """            3 => Ok(End),
+            4 => Ok(Clear),""",
+  """            4 => Ok(End),
+            3 => Ok(Clear),""")
+B("C15-compression-from-config", "C15", "C15:R-C15.3:journal::entry::serialize_marker_item", ENTRY,
+  """    compression.encode_into(writer)?;
+
+    let compressed_value = match compression {""",
+  """    CompressionType::None.encode_into(writer)?;
+
+    let compressed_value = match compression {""")
+B("C15-hash-before-serialise", "C15", "C15:R-C15.4:journal::writer::Writer::write_raw", WRITER,
+  """        self.file.write_all(&self.buf)?;
+
+        hasher.update(&self.buf);
+        byte_count += self.buf.len();
+
+        self.buf.clear();
+        let checksum = hasher.finish();
+        byte_count += self.write_end(checksum)?;
+
+        Ok(byte_count)
+    }
+
+    pub(crate) fn write_clear(""",
+  """        self.file.write_all(&self.buf)?;
+
+        byte_count += self.buf.len();
+
+        self.buf.clear();
+        hasher.update(&self.buf);
+        let checksum = hasher.finish();
+        byte_count += self.write_end(checksum)?;
+
+        Ok(byte_count)
+    }
+
+    pub(crate) fn write_clear(""")
+B("C15-trailer-unchecked", "C15", "C15:R-C15.5", ENTRY,
+  """                if magic != MAGIC_BYTES {
+                    return Err(crate::Error::InvalidTrailer);
+                }""",
+  """                if magic.is_empty() {
+                    return Err(crate::Error::InvalidTrailer);
+                }""")
+B("C15-reader-hash-reset-in-start", "C15", "C15:R-C15.4:<journal::batch_reader::JournalBatchReader as std::iter::Iterator>::next:hasher-reset", BRD,
+  """                    self.is_in_batch = true;
+                    self.batch_counter = item_count;""",
+  """                    self.is_in_batch = true;
+                    self.checksum_builder = xxhash_rust::xxh3::Xxh3::new();
+                    self.batch_counter = item_count;""")
+B("C15-version-table", "C15", "C15:R-C15.2", "src/version.rs",
+  """            FormatVersion::V2 => 2,
+            FormatVersion::V3 => 3,""",
+  """            FormatVersion::V2 => 3,
+            FormatVersion::V3 => 2,""")
